@@ -24,12 +24,16 @@ case $pkgclause in
   xmpp_test|xmpp) dest=. ;;
   *) dest=$(echo $pkgclause | sed 's/_test$//') ;;
 esac
-[ -d $WT/$dest ] || dest=$(cd $WT && grep -rl "^package ${pkgclause%_test}\$" --include=*.go . | head -1 | xargs dirname)
+base=${pkgclause%_test}
+[ -d $WT/$dest ] || dest=$(cd $WT && grep -rlE "^package $base\$" --include=*.go . | grep -v _test.go | head -1 | xargs dirname)
+[ -n "${SEED_DEST:-}" ] && dest=$SEED_DEST
+TAGS=()
+[ -n "${SEED_TAGS:-}" ] && TAGS=(-tags "$SEED_TAGS")
 cp $demo $WT/$dest/zz_seed_demo_test.go
 tests=$(grep -o '^func Test[A-Za-z0-9_]*' $demo | sed 's/func //' | paste -sd'|')
-with=$(cd $WT && go test -vet=off -count=1 -timeout 300s -run "^($tests)\$" ./$dest 2>&1 | tail -3 | tr '\n' ' ')
+with=$(cd $WT && go test "${TAGS[@]}" -vet=off -count=1 -timeout 300s -run "^($tests)\$" ./$dest 2>&1 | tail -3 | tr '\n' ' ')
 git -C $WT apply -R $SRC/patch.diff
-without=$(cd $WT && go test -vet=off -count=1 -timeout 300s -run "^($tests)\$" ./$dest 2>&1 | tail -3 | tr '\n' ' ')
+without=$(cd $WT && go test "${TAGS[@]}" -vet=off -count=1 -timeout 300s -run "^($tests)\$" ./$dest 2>&1 | tail -3 | tr '\n' ' ')
 rm -f $WT/$dest/zz_seed_demo_test.go
 git -C $WT apply $SRC/patch.diff
 demo_ok=false
